@@ -79,6 +79,133 @@ def restore_blocks(f):
     return out
 
 
+def span_blind(rep, F, rule):
+    """Eq and Hash of the marked node types read exactly the `data` field of their operands (so they agree with each other, and ignore spans)"""
+    for ty in ("saphyr::annotated::marked_yaml::MarkedYaml", "saphyr::annotated::marked_yaml_owned::MarkedYamlOwned"):
+        for k, f in sorted(F.fns.items()):
+            if f.d.get("impl_adt") != ty or f.kind != "AssocFn":
+                continue
+            tr = f.d.get("impl_trait")
+            if not ((tr == "std::cmp::PartialEq" and f.name == "eq") or (tr == "std::hash::Hash" and f.name == "hash")):
+                continue
+            nparams = 2 if f.name == "eq" else 1
+            read = {i: set() for i in range(1, nparams + 1)}
+            whole = []
+            for bi, b in enumerate(f.blocks):
+                if b["cleanup"]:
+                    continue
+                places = []
+                for s in b["stmts"]:
+                    if s["k"] == "assign":
+                        places += cfg.rv_places(s["rv"])
+                t = b["term"]
+                if t["k"] == "call":
+                    for a in t["args"]:
+                        p = op_place(a)
+                        if p is not None:
+                            places.append(p)
+                for p in places:
+                    if p["l"] in read:
+                        fl = cfg.place_fields(p)
+                        if fl:
+                            read[p["l"]].add(fl[0])
+                        elif not (p["p"] == [{"k": "deref"}] or not p["p"]):
+                            pass
+                # the reference itself handed to a call = whole-node use
+                if t["k"] == "call":
+                    for a in t["args"]:
+                        l = is_local(a)
+                        if l is not None:
+                            o = cfg.expr_local(f, l)
+                            if o in [("param", i) for i in read] or (o[0] == "ref" and o[1][0] == "place" and o[1][1] in [("param", i) for i in read]
+                                                                     and not [x for x in o[1][2] if x != "deref"]):
+                                whole.append(cfg.expr_str(o))
+            okc = all(v == {"data"} for v in read.values()) and not whole
+            rep.check(okc, rule, short(k), "equality/hash of a marked node reads something other than `data` (the span must not take part)",
+                      site=f.span, detail={"fields_read": {str(i): sorted(v) for i, v in read.items()}, "whole_uses": whole})
+
+
+def _payload(e):
+    """(variant, field index) an expression takes, unchanged, from the payload of an enum value (through Into/as_ref/reborrows)"""
+    e = cfg.strip_reborrow(e)
+    while e[0] == "call" and e[1] in ("<T as std::convert::Into<U>>::into", "std::option::Option::as_ref", "std::convert::From::from") and len(e[2]) == 1:
+        e = cfg.strip_reborrow(e[2][0])
+        if e[0] == "ref":
+            e = e[1]
+    if e[0] == "ref":
+        e = e[1]
+    if e[0] == "place" and len(e[2]) >= 2 and e[2][-2][0] == "downcast" and e[2][-1][0] == "field":
+        return (e[2][-2][1], int(e[2][-1][1]), e[1])
+    return None
+
+
+def eager_deferred_agreement(rep, F):
+    """Deferred loading followed by resolution equals eager loading: (1) the loader's scalar arm, on the eager side, always hands the event's
+    (text, style, tag) to value_from_cow_and_metadata and, on the deferred side, always stores exactly those three in a Representation;
+    (2) parse_representation hands the three stored fields, unchanged, to the same resolver and maps Some->Value, None->BadValue
+    (the latter mapping is rule value-from-cow / take-restore)."""
+    on = [f for k, f in F.fns.items() if f.name == "on_event" and f.d.get("impl_adt") == LOADER]
+    if len(on) != 1:
+        raise facts.MissingAnchor("YamlLoader::on_event not found")
+    f = on[0]
+    sw = [bi for bi, b in enumerate(f.blocks) if not b["cleanup"] and b["term"]["k"] == "switch" and cfg.self_field_of_switch(f, bi) == ["early_parse"]]
+    if len(sw) != 1:
+        raise facts.MissingAnchor("on_event: the branch on early_parse was not found (found %d)" % len(sw))
+    m, other = cfg.switch_edge_blocks(f, sw[0])
+    deferred, eager = m.get(0), other
+    joins = {bb for bb, t, ck, fr in f.calls() if ck and ck.endswith("::insert_new_node") and sw[0] in f.dominators().get(bb, ())}
+    eager_calls, bad_args = set(), []
+    for bb, t, ck, fr in f.calls():
+        if ck and ck.endswith("::value_from_cow_and_metadata"):
+            got = [_payload(cfg.expr_operand(f, a, 8)) for a in t["args"]]
+            want = [("Scalar", 0), ("Scalar", 1), ("Scalar", 3)]
+            if [g[:2] if g else None for g in got] == want and all(g[2] == ("param", 2) for g in got):
+                eager_calls.add(bb)
+            else:
+                bad_args.append(str(got))
+    rep_aggs = set()
+    for bi, si, st in cfg.stmts(f):
+        if st["k"] == "assign" and st["rv"]["k"] == "agg" and st["rv"].get("variant") == "Representation":
+            got = [_payload(cfg.expr_operand(f, o, 8)) for o in st["rv"]["ops"]]
+            if [g[:2] if g else None for g in got] == [("Scalar", 0), ("Scalar", 1), ("Scalar", 3)]:
+                rep_aggs.add(bi)
+            else:
+                bad_args.append(str(got))
+    p1 = (None if eager in eager_calls else cfg.flag_reach(f, eager, joins, avoid=eager_calls)) if joins else [eager]
+    p2 = (None if deferred in rep_aggs else cfg.flag_reach(f, deferred, joins, avoid=rep_aggs)) if joins and deferred is not None else [sw[0]]
+    rep.check(p1 is None and not bad_args, "eager-deferred-agreement", "on_event[Scalar,eager]",
+              "with early_parse on, some scalar event reaches the tree without going through value_from_cow_and_metadata(text, style, tag): "
+              "eager loading and deferred loading + parse_representation give different nodes", site=f.span, detail={"path": p1, "other_args": bad_args})
+    rep.check(p2 is None, "eager-deferred-agreement", "on_event[Scalar,deferred]",
+              "with early_parse off, some scalar event is not stored as Representation(text, style, tag)", site=f.span, detail={"path": p2})
+    n = 0
+    for k, g in sorted(F.fns.items()):
+        if g.name != "parse_representation" or g.kind != "AssocFn" or not g.file.endswith("macros.rs"):
+            continue
+        n += 1
+        calls = [(bb, t) for bb, t, ck, fr in g.calls() if ck and ck.endswith("::parse_from_cow_and_metadata")]
+        ok = len(calls) == 1
+        det = None
+        if ok:
+            got = [_payload(cfg.expr_operand(g, a, 8)) for a in calls[0][1]["args"]]
+            det = str(got)
+            ok = [x[:2] if x else None for x in got] == [("Representation", 0), ("Representation", 1), ("Representation", 2)] \
+                and all(x[2][0] == "call" and take_like(x[2][1]) for x in got)
+            # every path through the Representation arm reaches the resolver call
+            if ok:
+                for bb, p, adt in tables.discr_switches(g):
+                    if adt == g.d.get("impl_adt"):
+                        mm, oth = cfg.switch_edge_blocks(g, bb)
+                        vidx = [v["discr"] for v in F.adt(adt)["variants"] if v["name"] == "Representation"][0]
+                        arm = mm.get(vidx)
+                        if arm is not None and cfg.flag_reach(g, arm, cfg.return_blocks(g), avoid={calls[0][0]}) is not None:
+                            ok = False
+                            det = "a path through the Representation arm avoids the resolver"
+        rep.check(ok, "eager-deferred-agreement", short(k), "parse_representation does not resolve the stored (text, style, tag) with parse_from_cow_and_metadata",
+                  site=g.span, detail=det)
+    rep.floor("parse_representation instances (agreement)", n, 4)
+
+
 def run(tier):
     rep = new_report(tier)
     F = facts.load()
@@ -282,49 +409,9 @@ def run(tier):
                   site=f.span, detail=det)
     rep.floor("value_from_cow_and_metadata instances", nvf, 4)
 
+    eager_deferred_agreement(rep, F)
     # (c) span-blind Eq/Hash of marked nodes
-    for ty in ("saphyr::annotated::marked_yaml::MarkedYaml", "saphyr::annotated::marked_yaml_owned::MarkedYamlOwned"):
-        for k, f in sorted(F.fns.items()):
-            if f.d.get("impl_adt") != ty or f.kind != "AssocFn":
-                continue
-            tr = f.d.get("impl_trait")
-            if not ((tr == "std::cmp::PartialEq" and f.name == "eq") or (tr == "std::hash::Hash" and f.name == "hash")):
-                continue
-            nparams = 2 if f.name == "eq" else 1
-            read = {i: set() for i in range(1, nparams + 1)}
-            whole = []
-            for bi, b in enumerate(f.blocks):
-                if b["cleanup"]:
-                    continue
-                places = []
-                for s in b["stmts"]:
-                    if s["k"] == "assign":
-                        places += cfg.rv_places(s["rv"])
-                t = b["term"]
-                if t["k"] == "call":
-                    for a in t["args"]:
-                        p = op_place(a)
-                        if p is not None:
-                            places.append(p)
-                for p in places:
-                    if p["l"] in read:
-                        fl = cfg.place_fields(p)
-                        if fl:
-                            read[p["l"]].add(fl[0])
-                        elif not (p["p"] == [{"k": "deref"}] or not p["p"]):
-                            pass
-                # the reference itself handed to a call = whole-node use
-                if t["k"] == "call":
-                    for a in t["args"]:
-                        l = is_local(a)
-                        if l is not None:
-                            o = cfg.expr_local(f, l)
-                            if o in [("param", i) for i in read] or (o[0] == "ref" and o[1][0] == "place" and o[1][1] in [("param", i) for i in read]
-                                                                     and not [x for x in o[1][2] if x != "deref"]):
-                                whole.append(cfg.expr_str(o))
-            okc = all(v == {"data"} for v in read.values()) and not whole
-            rep.check(okc, "span-blind", short(k), "equality/hash of a marked node reads something other than `data` (the span must not take part)",
-                      site=f.span, detail={"fields_read": {str(i): sorted(v) for i, v in read.items()}, "whole_uses": whole})
+    span_blind(rep, F, "span-blind")
     # Eq/Hash agree on derive for the data types
     for ty in ["saphyr::annotated::yaml_data::YamlData", "saphyr::annotated::yaml_data_owned::YamlDataOwned", "saphyr::yaml::Yaml",
                "saphyr::yaml_owned::YamlOwned", "saphyr::scalar::Scalar", "saphyr::scalar::ScalarOwned"]:
